@@ -52,7 +52,10 @@ class SequenceMutator(CollectionAttrMutator):
             raise ValueError(
                 f"Item `{repr(value_or_index)}` not found in collection `{self.attr_spec.qualified_name}`."
             )
-        return (value_index, value_or_index)
+        if value_index is None:
+            return (value_index, value_or_index)
+        # The stored item (not the merely equal value it was looked up with).
+        return (value_index, self.collection[value_index])
 
     def _inserter(self, index, item, insert=False):  # pylint: disable=arguments-differ
         if not check_type(item, self.attr_spec.item_type):
